@@ -125,7 +125,7 @@ REG['C19'] = {
                   'EarthBranch::get_element/get_hide_heaven_stem_*/get_zodiac/get_direction/get_opposite/get_ominous/get_combine/combine/get_harm',
                   'SixtyCycle::get_heaven_stem/get_earth_branch/get_sound/get_ten/get_extra_earth_branches', 'Element::*', 'Direction::get_element', 'NineStar::*', 'TwentyEightStar::*', 'TwelveStar::get_ecliptic', 'FetusDay::new', 'SolarDay::get_constellation', 'MinorRen::*'],
     'K': [
-        dict(id='c19_k', prefix=True, min_count=17, exclude=['c19_k_stem_polarity', 'c19_k_branch_hide_middle', 'c19_k_branch_hide_residual'] + ['c19_k_terrain_s%02d' % i for i in range(10)],
+        dict(id='c19_k', prefix=True, min_count=17,
              fn='HeavenStem / EarthBranch getters', clause='getter(index) == first-principles rule(index) for every index of the domain',
              paired_leaf=dict(check='c19_attributes', range=(0, 0), chunks=1)),
     ],
@@ -243,8 +243,6 @@ REG['C07'] = {
 }
 
 
-def _leaf_only(text):
-    return text
 
 REG['C08'] = {
     'K': [dict(id='c08_k_first_month_args', fn='SixtyCycleYear::get_first_month', clause='stem index fed to the name lookup == Five-Tigers stem of the year stem, every year -1..9999 (index-faithful cheap constructors)'),
